@@ -564,3 +564,41 @@ def sign_pins(f, var_id, negative):
         if val is not None:
             pins[n['i']] = val
     return pins
+
+
+def call_pins(g, call_pred, value):
+    """pins that fix the result of every call (in the analysed function, its callbacks and inlined helpers) for which
+    call_pred(func, node) holds"""
+    pins = {}
+    for c in g.ctxs:
+        for n in c.f.nodes:
+            if n['k'] == 'call' and call_pred(c.f, n):
+                pins[(id(c.f), n['i'])] = value
+    return pins
+
+
+def gated_by(g, points, call_pred, value=True):
+    """every path from the entry to one of `points` depends on a call selected by call_pred having returned `value`: with all those
+    calls pinned to the opposite result (named booleans, conjunctions, negations and conditional expressions are folded by the
+    explorer) none of the points is reachable.  Returns (holds, offending path or None, number of gate calls)."""
+    from ..symb import feasible_reach
+    pins = call_pins(g, call_pred, not value)
+    if not pins:
+        return False, None, 0
+    path = feasible_reach(g, [g.entry], points, pins=pins)
+    return path is None, path, len(pins)
+
+
+def after_result(g, call_pred, value, must_hit, target=None):
+    """after any call selected by call_pred has returned `value`, every path to `target` (default: the exit) passes one of
+    `must_hit`.  Returns (holds, offending path or None, number of calls checked)."""
+    from ..symb import feasible_reach
+    pins = call_pins(g, call_pred, value)
+    n = 0
+    for p in g.points:
+        if p.n is not None and p.n['k'] == 'call' and (id(p.f), p.n['i']) in pins:
+            n += 1
+            path = feasible_reach(g, [q for (q, _l) in p.succ], [target or g.exit], avoid=must_hit, pins=pins)
+            if path is not None:
+                return False, [p] + path, n
+    return n > 0, None, n
